@@ -3,7 +3,7 @@ From Coq Require Import String.
 From Coq Require Import List NArith ZArith Bool.
 From Dials Require Export Base.Outcome Base.Runes Reflect.Ty Reflect.Ptrify Stack.Overlay
   Text.ParseText Sources.Flatten Sources.Decoders Sources.DecodersSpec.
-From Dials Require Import Check.C12Check.
+From Dials Require Import Check.C11Check Check.C12Check.
 Import ListNotations.
 Open Scope list_scope.
 Open Scope N_scope.
